@@ -35,12 +35,19 @@ fn run(ctx: &mut Ctx, extra: &mut BTreeMap<String, String>) {
     let mut cells: Vec<u64> = Vec::new();
     if depth <= 5 { cells = (0..n_hash(depth)).collect(); } else {
       let m = nside(depth) as u32 - 1;
-      for d0 in [0u64, 4, 8].iter() { for a in 0..40u32.min(m + 1) { for b in 0..40u32.min(m + 1) {
-        for &(i, j) in [(a, b), (m - a, b), (a, m - b), (m - a, m - b)].iter() { cells.push(join(depth, *d0, i, j)); } } } }
+      let samp = |n: u32| -> Vec<u32> { let mut v: Vec<u32> = (0..=n).map(|k| ((k as u64 * m as u64) / n as u64) as u32).collect(); v.dedup(); v };
+      for d0 in [0u64, 4, 8].iter() {
+        for &a in samp(192).iter() { for &b in samp(192).iter() { cells.push(join(depth, *d0, a, b)); } }
+        for &a in samp(8192).iter() { for e in 0..3u32.min(m) { for &(i, j) in [(a, e), (a, m - e), (e, a), (m - e, a)].iter() { cells.push(join(depth, *d0, i, j)); } } }
+      }
       cells.sort(); cells.dedup();
     }
     let mut best = (f64::INFINITY, 0u64, 0usize);
     for &h in cells.iter() { for k in 0..2 { let w = width(depth, h, k); ctx.eval(); if w < best.0 { best = (w, h, k); } } }
+    if depth > 5 { for _ in 0..6 { let (d0, i, j) = split(depth, best.1); let m = nside(depth) as i64 - 1; let mut moved = false;
+      for di in -48i64..=48 { for dj in -3i64..=3 { for &(a, b) in [(i as i64 + di, j as i64 + dj), (i as i64 + dj, j as i64 + di)].iter() { if a < 0 || b < 0 || a > m || b > m { continue; }
+        let h = join(depth, d0, a as u32, b as u32); for k in 0..2 { let w = width(depth, h, k); if w < best.0 { best = (w, h, k); moved = true; } } } } }
+      if !moved { break; } } }
     let (d0, i, j) = split(depth, best.1);
     let c = ref_center(depth, best.1);
     out.push(format!("{{\"depth\": {}, \"true_min_width\": {:e}, \"threshold\": {:e}, \"ratio\": {:.6}, \"cell\": [{}, {}, {}], \"edge\": {}, \"centre\": [{:.6}, {:.6}]}}", depth, best.0, thr[depth as usize], best.0 / thr[depth as usize], d0, i, j, best.2, c.0, c.1));
